@@ -521,7 +521,8 @@ def run_one(tape, tier, opts):
         # ---- the command-line path: .cnr file -> cnvkit.py segment -> .cns file -----
         if use_cli:
             _cli_path(ctx, tape, rundir, cnarr, table, method, skip_low, skip_outliers,
-                      threshold, parx, processes, is_hmm)
+                      threshold, parx, processes, is_hmm,
+                      fault_kind if (population == "fault" and use_pool) else None)
     except Skip:
         res["skipped"] = True
     except Violation as v:
@@ -556,7 +557,7 @@ def run_one(tape, tier, opts):
 
 
 def _cli_path(ctx, tape, rundir, cnarr, table, method, skip_low, skip_outliers, threshold, parx,
-              processes, is_hmm):
+              processes, is_hmm, fault_kind=None):
     """`cnvkit.py segment` on a written .cnr: the .cns it writes must satisfy T1-T5
     against the table as read back from that file (6 significant digits)."""
     import cnvlib
@@ -615,6 +616,52 @@ def _cli_path(ctx, tape, rundir, cnarr, table, method, skip_low, skip_outliers, 
         raise Violation(v.clause, v.key + "/cli", f"cnvkit.py segment -m {method} -p {processes} "
                                                    f"(.cns file): {v.message}")
     ctx.probe("cli.segment_file_checked")
+    if fault_kind is None:
+        return
+    # the same command with a fault in its per-arm fan-out: it may fail; a .cns it writes
+    # must still satisfy T1-T5 (survivors as observed in the fault-free command above)
+    out2 = os.path.join(rundir, "sample.cli.fault.cns")
+    argv2 = list(argv)
+    argv2[argv2.index("-o") + 1] = out2
+    ctx.pool_cfg["fault_kinds"] = tuple(fault_kind.split("+"))
+    ctx.pool_cfg["fault_rate"] = (1, 3)
+    ctx.pool_cfg["max_faults"] = 1
+    ctx.pool_faults_fired = 0
+    base_f = dict(ctx.faults)
+    err = None
+    try:
+        cargs = commands.parse_args(argv2)
+        cargs.func(cargs)
+    except C.SimCrash:
+        raise
+    except BaseException as exc:  # noqa: BLE001
+        err = exc
+    finally:
+        ctx.pool_cfg["fault_kinds"] = ()
+    _collect_obs()
+    fired = sorted(k for k in ctx.faults if k in ("pool.death", "pool.exc", "pool.inner")
+                   and ctx.faults[k] > base_f.get(k, 0))
+    if err is not None:
+        if not fired:
+            raise Violation("T6", f"C03/T6/{method}/cli/raises",
+                            f"cnvkit.py segment -m {method} -p {processes} raised {type(err).__name__}: "
+                            f"{D.mask_text(err)[:300]} on its second run (no fault fired)")
+        ctx.probe("cli.fault_call_raised")
+        return
+    try:
+        segs2 = cnvlib.read(out2).data.copy()
+        segs2["chromosome"] = segs2["chromosome"].astype(str)
+        check_table(segs2, table2, surv, method, None, rtol=2e-5)
+    except Violation as v:
+        clause = "F1" if fired else v.clause
+        raise Violation(clause, f"C03/{clause}/{method}/cli",
+                        f"cnvkit.py segment -m {method} -p {processes}"
+                        f"{' after ' + str(fired) if fired else ''} wrote a .cns that breaks the property: "
+                        f"{v.message}")
+    except Exception as exc:  # noqa: BLE001
+        raise Violation("F1", f"C03/F1/{method}/cli/unreadable",
+                        f"cnvkit.py segment after {fired} left an unreadable .cns: {exc}")
+    ctx.probe("cli.fault_survived_correct_file" if fired else "cli.second_run_checked")
 
 
 def _raise_feature(table, method, skip_low, min_weight):
